@@ -225,14 +225,20 @@ func (p *pool) loop() {
 	defer p.wg.Done()
 	var w *wproc
 	defer func() { w.kill() }()
+	turn := 0
 	for {
+		// alternate between the search queue and the enumeration queue so that neither starves
 		var it queuedJob
+		first, second := p.hi, p.q
+		if turn++; turn%2 == 0 {
+			first, second = p.q, p.hi
+		}
 		select {
-		case it = <-p.hi:
+		case it = <-first:
 		default:
 			select {
-			case it = <-p.hi:
-			case it = <-p.q:
+			case it = <-first:
+			case it = <-second:
 			case <-p.stop:
 				return
 			}
@@ -466,14 +472,27 @@ func (p *pool) exec(w *wproc, it queuedJob) *wproc {
 				inLen = int(f)
 			}
 		}
-		ps.addViol(violation{Clause: clause, Key: key, Detail: detail, Entry: en, EntryI: int(o.mEntry), Family: t.Family, Index: o.mIdx, Case: caseDesc, Input: inHex, Len: inLen})
+		dv := violation{Clause: clause, Key: key, Detail: detail, Entry: en, EntryI: int(o.mEntry), Family: t.Family, Index: o.mIdx, Case: caseDesc, Input: inHex, Len: inLen}
+		switch t.Kind {
+		case "lp1":
+			dv.Hist, dv.Cfg, dv.Family = []int64{o.mIdx}, t.N, -1
+		case "lpseq":
+			pi, k := o.mIdx/int64(len(lpAlphabet)), o.mIdx%int64(len(lpAlphabet))
+			if int(pi) < len(t.Prefix) {
+				for _, f := range t.Prefix[pi] {
+					dv.Hist = append(dv.Hist, int64(f))
+				}
+			}
+			dv.Hist, dv.Cfg, dv.Family = append(dv.Hist, lpAlphabet[k]), t.N, -1
+		}
+		ps.addViol(dv)
 		ps.mu.Lock()
 		ps.deaths++
 		if o.hung {
 			ps.hangs++
 		}
 		ps.grpDeaths[j.grpKey]++
-		if ps.grpDeaths[j.grpKey] >= groupDeathLimit {
+		if ps.grpDeaths[j.grpKey] >= groupDeathLimit && !ps.grpDead[j.grpKey] {
 			ps.grpDead[j.grpKey] = true
 			ps.notes = append(ps.notes, fmt.Sprintf("group %q abandoned after %d worker deaths (all reported)", j.grpKey, ps.grpDeaths[j.grpKey]))
 		}
